@@ -134,6 +134,17 @@ CLAIMED = {
                 "different hash seeds and file orders stand in (not counted). Timestamps, library internals and worker scheduling are not addressed.",
         "note": "Syntactic discipline + bounded builds; not a proof of byte identity.",
     },
+    "C11": {
+        "engines": ["A", "B", "Bd"],
+        "technique": "contract-based deductive verification: block contracts on the lookup part of FordLinkProcessor.convert_link (closure executed in line, callee contracts for "
+                     "find_child / project.find with exceptional behaviour) and on the child-part tail of Project.find, a loop-invariant proof of _find_in_list, regex coverage of "
+                     "LINK_RE, data contracts on the kind tables (z3)",
+        "text": "Proved: convert_link selects exactly the documented lookup (own contents, then the parent's, then the project; a kind that cannot exist in a scope only skips that "
+                "scope; the child part is resolved inside the found item with its kind; errors only for an impossible child kind); Project.find resolves the child part with its "
+                "kind; _find_in_list returns the first entity of that name case-insensitively; LINK_RE accepts every documented spelling; every documented kind synonym maps to "
+                "its collection. URL correctness from every page and code-span verbatimness depend on relpath and python-markdown: bounded stand-in only (14 references).",
+        "note": "find_child itself (run-time attribute names) is outside the subset.",
+    },
 }
 _NB = "no obligations built yet for this property in the current commit (planned in DESIGN.md section 6; technique not switched)"
-NOT_APPLICABLE = {p: _NB for p in ["C09", "C11", "C13", "C16", "C17", "C18", "C20"]}
+NOT_APPLICABLE = {p: _NB for p in ["C09", "C13", "C16", "C17", "C18", "C20"]}
